@@ -81,6 +81,58 @@ fn overlap(line: &str) -> String {
     format!("{id} OVERLAP a={ra} b={rb}\n{id} EXIT - after={}\n", targets::call_u64("r0", 7))
 }
 
+/// `<id> parked <N> <p>`: a fake!(.., when: <predicate>, times: N) whose predicate takes a while for non-matching arguments (it looks something
+/// up, takes a lock, ...).  p threads make a NON-matching call each and are still inside the predicate when the main thread makes its N matching
+/// calls: a call that will be rejected has no effect on the count AT ANY TIME, so all N are admitted; then the p calls finish (rejected).
+static PARK: std::sync::atomic::AtomicBool = std::sync::atomic::AtomicBool::new(false);
+static PARKED: AtomicUsize = AtomicUsize::new(0);
+pub fn slow_pred(x: u64) -> bool {
+    if x != 7 && PARK.load(Ordering::SeqCst) {
+        PARKED.fetch_add(1, Ordering::SeqCst);
+        let t0 = std::time::Instant::now();
+        while PARK.load(Ordering::SeqCst) && t0.elapsed().as_secs() < 20 { std::thread::yield_now(); }
+    }
+    x == 7
+}
+fn parked_site(n: usize) -> (FuncPtr, CallCountVerifier) {
+    match n {
+        1 => injectorpp::fake!(func_type: fn(x: u64) -> u64, when: slow_pred(x), returns: 4101, times: 1),
+        2 => injectorpp::fake!(func_type: fn(x: u64) -> u64, when: slow_pred(x), returns: 4102, times: 2),
+        3 => injectorpp::fake!(func_type: fn(x: u64) -> u64, when: slow_pred(x), assign: { let _ = x; }, returns: 4103, times: 3),
+        _ => injectorpp::fake!(func_type: fn(x: u64) -> u64, when: slow_pred(x), returns: 4105, times: 5),
+    }
+}
+fn parked(line: &str) -> String {
+    let t: Vec<&str> = line.split_whitespace().collect();
+    let (id, n, p) = (t[0].to_string(), t[2].parse::<usize>().unwrap(), t[3].parse::<usize>().unwrap());
+    let n = match n { 1 | 2 | 3 => n, _ => 5 };
+    let mut calls = (0usize, 0usize, 0usize);     // admitted, overcalled, other
+    let mut rejected = 0usize; let mut parked_seen = 0usize;
+    let exit = catch_unwind(AssertUnwindSafe(|| {
+        let mut inj = InjectorPP::new();
+        let tf: fn(u64) -> u64 = targets::r0;
+        inj.when_called(injectorpp::func!(fn (tf)(u64) -> u64)).will_execute(parked_site(n));
+        PARKED.store(0, Ordering::SeqCst); PARK.store(true, Ordering::SeqCst);
+        let hs: Vec<_> = (0..p).map(|_| std::thread::spawn(|| match catch_unwind(|| targets::call_u64("r0", 8)) { Ok(_) => "value".to_string(), Err(e) => util::classify(&util::panic_msg(&e)).to_string() })).collect();
+        let t0 = std::time::Instant::now();
+        while PARKED.load(Ordering::SeqCst) < p && t0.elapsed().as_millis() < 3000 { std::thread::yield_now(); }
+        parked_seen = PARKED.load(Ordering::SeqCst);
+        for _ in 0..n {
+            match catch_unwind(|| targets::call_u64("r0", 7)) {
+                Ok(v) => { if v == 4100 + n as u64 { calls.0 += 1 } else { calls.2 += 1 } }
+                Err(e) => if util::classify(&util::panic_msg(&e)) == "overcalled" { calls.1 += 1 } else { calls.2 += 1 },
+            }
+        }
+        PARK.store(false, Ordering::SeqCst);
+        for h in hs { if h.join().unwrap() == "args" { rejected += 1; } }
+        drop(inj);
+    }));
+    PARK.store(false, Ordering::SeqCst);
+    let ex = match &exit { Ok(()) => "normal".to_string(), Err(e) => { let msg = util::panic_msg(e);
+        if util::classify(&msg) == "count" { format!("panic:count:{}", msg.split(|ch: char| !ch.is_ascii_digit()).filter(|x| !x.is_empty()).collect::<Vec<_>>().join(":")) } else { "panic:other".into() } } };
+    format!("{id} PARKED n={n} parked={parked_seen} admitted={} overcalled={} other={} rejected={rejected} exit={ex}\n{id} EXIT - after={}\n", calls.0, calls.1, calls.2, targets::call_u64("r0", 7))
+}
+
 /// `<id> churn <site> <threads> <rounds> <k>`: every thread runs `rounds` complete lifetimes through the SAME fake!(.., times: N) line,
 /// each making k matching calls; the process-wide guard serialises the lifetimes, so each must see exactly the verdict of its own calls
 /// whatever the other threads are doing (waiting in new(), installing, verifying, letting go).
@@ -134,7 +186,7 @@ pub fn main(_args: &[String]) {
         if l.is_empty() { continue; }
         let id = l.split_whitespace().next().unwrap().to_string();
         if hung >= 2 { util::emit(&format!("{id} CHILD skipped:earlier-cases-hung\n")); continue; }
-        let (st, o) = util::fork_run(|| match l.split_whitespace().nth(1) { Some("overlap") => overlap(&l), Some("churn") => churn(&l), _ => one(&l) });
+        let (st, o) = util::fork_run(|| match l.split_whitespace().nth(1) { Some("overlap") => overlap(&l), Some("churn") => churn(&l), Some("parked") => parked(&l), _ => one(&l) });
         if st == "signal:14" { hung += 1; }
         util::emit(&o);
         util::emit(&format!("{id} CHILD {st}\n"));
